@@ -56,7 +56,7 @@ pub mod verif;
 pub use orswot::BadState;
 pub use orswot::{Key, OrSWotSet, StateChanges};
 #[cfg(datacake_verif)]
-pub use orswot::VerifProjection;
+pub use orswot::{VerifProjection, FORGIVENESS_PERIOD};
 pub use timestamp::{
     get_datacake_timestamp,
     get_unix_timestamp_ms,
